@@ -207,6 +207,13 @@ func zzC08Resume() {
 		version = protocolVersion20251125
 	}
 	call := zzCall(1, "tools/call")
+	postVersion := version
+	if priming && vBool("theCallIsInitializeSentWithoutAVersionHeader") {
+		// initialize travels without an Mcp-Protocol-Version header (the version is what it negotiates): the stream's
+		// version — priming event or not, event-store slot or not — comes from the body
+		call = &jsonrpc.Request{ID: jsonrpc2.Int64ID(1), Method: methodInitialize, Params: vJSON(&InitializeParams{ProtocolVersion: protocolVersion20251125})}
+		postVersion = ""
+	}
 	total := vParam("writes") // messages written to the stream, the last one being the response
 	n1 := vChoice("attachedWrites", total)
 	n2 := vChoice("detachedWrites", total-n1)
@@ -234,7 +241,7 @@ func zzC08Resume() {
 		}
 	}
 	post := zzNewExch("post")
-	zzPOST(c, post, version, call)
+	zzPOST(c, post, postVersion, call)
 	vAssert(env.hangs == 1, "C08.post-hangs")
 	for i := 0; i < n2; i++ {
 		write() // nobody attached: must still be stored
